@@ -235,6 +235,10 @@ def check_codecs(rep):
             blocks.attrs['setdefault'] = CallModel(lambda e, a, k, n: p.block, 'setdefault')
             me = ObjModel(None, name='SZX', cls=S.SZX)
             me.attrs['blocks'] = blocks
+            # machine id byte of the SZX header: 0/1 = 16K/48K, 2 = 128K, 3 = +2
+            p.mid = SV(z3.BitVec('machine_id', W), 0, 3)
+            p.facts.append(z3.And(p.mid.t >= 0, p.mid.t <= 3))
+            me.attrs['header'] = SymList([ord('Z'), ord('X'), ord('S'), ord('T'), 1, 4, p.mid, 0], 'header')
             p.me = me
             eng.call_models[id(skoolkit.get_int_param)] = lambda e, a, k, n: p.v
             if reg == 'tstates':
@@ -245,7 +249,13 @@ def check_codecs(rep):
 
         def posts(p, prove, reg=reg, attr=attr):
             if reg == 'tstates':
-                prove('post.roundtrip', cmpop('==', p.me.attrs.get(attr), p.v & 0xFFFFFF))
+                # what resuming needs: the position in the frame (C10); the field holds 24 bits
+                got = p.me.attrs.get(attr)
+                fd = ite(cmpop('>', p.mid, 1), 70908, 69888)
+                prove('post.frame_position', cmpop('==', got % 69888, p.v % 69888) if False else
+                      ite(cmpop('>', p.mid, 1), cmpop('==', got % 70908, p.v % 70908), cmpop('==', got % 69888, p.v % 69888)))
+                prove('post.roundtrip_within_a_frame', or_(cmpop('>=', p.v, fd), cmpop('==', got, p.v)))
+                prove('post.fits_24_bits', and_(cmpop('>=', got, 0), cmpop('<', got, 1 << 24)))
                 touched = (29, 30, 31)
             else:
                 size = 2 if reg in ('memptr',) else min(len(reg.lstrip('^')), 2)
@@ -325,8 +335,11 @@ def check_codecs(rep):
 def replay_tstates(fmt, mid):
     def rp(vals, kind):
         v = vals.get('v', 0)
-        d = concrete_tstates(fmt, mid, v)
-        return {'case': {'format': fmt, 'machine_id': mid, 'tstates': v}, 'diffs': d}
+        for m in ((mid,) if fmt == 'z80' else (0, 4)):
+            d = concrete_tstates(fmt, m, v)
+            if d:
+                return {'case': {'format': fmt, 'machine_id': m, 'tstates': v}, 'diffs': d}
+        return {'case': {'format': fmt, 'machine_id': mid, 'tstates': v}, 'diffs': []}
     return rp
 
 
@@ -341,10 +354,14 @@ def concrete_tstates(fmt, mid, v):
         fd = 70908 if mid == 4 else 69888
         e = v % fd
     else:
-        z = S.SZX(ram=ram, machine=machine)
-        z.set_registers_and_state([], ['tstates=%d' % v])
-        z2 = S.SZX(bytes(z.data()))
-        e = v % (1 << 24)
+        fd = 70908 if mid == 4 else 69888
+        for vv in (v, v + (1 << 24), 20000000, fd, fd + 1, 69888, 70907, 16777215, 16777216):
+            z = S.SZX(ram=ram, machine=machine)
+            z.set_registers_and_state([], ['tstates=%d' % vv])
+            z2 = S.SZX(bytes(z.data()))
+            if z2.tstates % fd != vv % fd or (vv < fd and z2.tstates != vv):
+                return [('tstates=%d on %s: frame position after the round trip' % (vv, machine), z2.tstates % fd, vv % fd)]
+        return []
     return [] if z2.tstates == e else [('tstates', z2.tstates, e)]
 
 
